@@ -132,6 +132,10 @@ func checkC01(rc *Run) error {
 	}
 	rc.Logf("TLC: %d states, %d vectors (%d expressions x %d documents) in %v", g.TLC.Distinct, len(g.Vectors), len(g.Exprs), len(g.Docs), g.TLC.Wall.Round(time.Second))
 	stats := replayEvalVectors(rc, g, "C01")
+	// code -> model: every operator handler step of a sample of the real evaluations is validated by TLC against Eval.tla
+	if err := validateHandlerSteps(rc, g, rc.Pick(400, 150), "C01"); err != nil {
+		return err
+	}
 	rc.Set("states", g.TLC.Distinct)
 	rc.Set("transitions", g.TLC.Generated)
 	rc.Set("traces_validated_against_impl", stats.compared)
